@@ -252,6 +252,7 @@ func NewDefaultContracts(cfg config.ProtocolConfiguration) []interop.Contract {
 	oracle.GAS = gas
 	oracle.NEO = neo
 	oracle.Desig = desig
+	oracle.Policy = policy
 
 	notary := NewNotary()
 	notary.GAS = gas
